@@ -3,7 +3,7 @@ import copy
 
 import numpy as np
 
-from .common import pp, Inst, patched
+from .common import pp, Inst, patched, setcol
 from . import c06
 
 PROPERTY = "C19"
@@ -161,9 +161,71 @@ def make_branch_map():
     return fn
 
 
+_IM = {}
+
+
+def _im_net():
+    if "n" not in _IM:
+        net = pp.create_empty_network()
+        b = [pp.create_bus(net, v) for v in (110., 20., 20.)]
+        pp.create_ext_grid(net, b[0])
+        pp.create_transformer_from_parameters(net, b[0], b[1], 25., 110., 20., 0.4, 10., 14., 0.07)
+        pp.create_line_from_parameters(net, b[1], b[2], 5., 0.1, 0.3, 10., 0.5)
+        pp.create_load(net, b[2], 5., 1.)
+        pp.runpp(net, numba=False, lightsim2grid=False)
+        for et, el, side in (("trafo", 0, "hv"), ("trafo", 0, "lv"), ("line", 0, "from"), ("line", 0, "to")):
+            pp.create_measurement(net, "i", et, 0.1, 0.01, el, side=side)
+        pp.create_measurement(net, "v", "bus", 1.0, 0.01, 0)
+        _IM["n"] = net
+    return _IM["n"]
+
+
+def make_current_units():
+    """current magnitude measurements reach the estimator in per unit of the rated current base of the bus *at the measured side*
+    (I_base = S_base / (sqrt3 Un_side)), for both sides of a transformer and both ends of a line - the real _add_measurements_to_ppci
+    on symbolic measured values and rated voltages"""
+    def fn(ctx):
+        pc = ctx.load("pandapower.estimation.ppc_conversion")
+        import copy
+        from pandapower.pypower.idx_brch import branch_cols
+        from pandapower.estimation.idx_brch import IM_FROM, IM_TO
+        _ppci_concrete()
+        net = copy.deepcopy(_im_net())
+        vals = [ctx.var(f"i_ka_{k}", 0.01, 2.) for k in ("trafo_hv", "trafo_lv", "line_from", "line_to")]
+        setcol(ctx, net.measurement, "value", vals + [1.0])
+        vn = [ctx.var("vn_hv_kv", 60., 400.), ctx.var("vn_lv_kv", 1., 50.)]
+        setcol(ctx, net.bus, "vn_kv", [vn[0], vn[1], vn[1]])
+        ppci = copy.deepcopy(_ppci_concrete())          # concrete internal case (real _init_ppc); only the measurement columns are symbolic
+        net["_pd2ppc_lookups"] = _im_net()["_pd2ppc_lookups"]
+        S = ppci["baseMVA"]
+        pc._add_measurements_to_ppci(net, ppci, "aux_bus", "wls")
+        lk = net._pd2ppc_lookups["branch"]
+        rows = {"trafo": lk["trafo"][0], "line": lk["line"][0]}
+        br = ppci["branch"]
+        sq3 = np.sqrt(3)
+        for nm, row, col, val, un in (("trafo_hv", rows["trafo"], IM_FROM, vals[0], vn[0]), ("trafo_lv", rows["trafo"], IM_TO, vals[1], vn[1]),
+                                      ("line_from", rows["line"], IM_FROM, vals[2], vn[1]), ("line_to", rows["line"], IM_TO, vals[3], vn[1])):
+            ctx.close(f"{nm}_current_in_per_unit_of_the_base_current_at_its_own_side", br[row, branch_cols + col] * S, val * un * sq3, 1e-9)
+    return fn
+
+
+_PPCI = {}
+
+
+def _ppci_concrete():
+    if "c" not in _PPCI:
+        import copy
+        from pandapower.estimation import ppc_conversion as real
+        net = copy.deepcopy(_im_net())
+        _PPCI["c"] = real._init_ppc(net, np.ones(3), np.zeros(3), True)[1]
+        _im_net()["_pd2ppc_lookups"] = net["_pd2ppc_lookups"]
+    return _PPCI["c"]
+
+
 def instances(tier):
     LAYOUT[0] = [(0, 1)] if tier == "quick" else [(0, 1), (1, 2)]
     zi = [Inst("zero_injection_zero_pwr_bus", make_zero_injection("zero_pwr_bus"), nvars=10, samples=4, max_paths=500, meta=dict(part="zero injection buses", option="zero_pwr_bus")),
+          Inst("current_measurement_units", make_current_units(), nvars=10, samples=3, raises=(UserWarning,), meta=dict(part="measurement conversion", measurements="i on trafo hv/lv, line from/to")),
           Inst("branch_measurement_rows", make_branch_map(), nvars=8, samples=4, max_paths=200, meta=dict(part="measurement mapping", branches="3 lines, 2 trafos, 1 impedance, any subset out of service"))]
     if tier == "quick":
         return zi + [Inst("hx_equals_power_flow_results", make_hx(), nvars=40, samples=2, timeout_ms=120000, max_paths=200, meta=dict(part="h(x)", branches=1))]
